@@ -16,6 +16,14 @@
 //! new `build::MessageBuilder` + `NameCompressor`; each output is read by the
 //! OTHER codec's parser and by the independent reader `mc::wire`, and must
 //! give back exactly what was pushed.
+//!
+//! Part 2b (seqx, builders under faults): build scripts with refused pushes
+//! (push limit, end of the buffer at chosen octets, a capacity fixed for the
+//! whole script at every value), rewind(), sections left backwards and
+//! truncate(), on the established builder over EVERY compressor (none,
+//! Static, Tree, Hash) and on the new builder; the output is read by the
+//! independent reader and by both codecs and must hold exactly the items
+//! accepted and not rolled back.
 use domain::base as ob;
 use domain::base::message_builder::{AdditionalBuilder, AnswerBuilder, AuthorityBuilder, QuestionBuilder, TreeCompressor};
 use domain::base::name::ParsedName;
@@ -1934,6 +1942,8 @@ enum Rd {
     A,
     Cname(usize),
     Ns(usize),
+    /// an unknown-type (OPAQUE_TYPE) record with this many RDATA octets
+    Opaque(u8),
 }
 
 #[derive(Clone, Copy, Debug, PartialEq)]
@@ -2006,6 +2016,7 @@ fn op_desc(op: Op, names: &[Vec<u8>]) -> String {
                 Rd::A => "A 192.0.2.1".to_string(),
                 Rd::Cname(t) => format!("CNAME {}", name_text(names, t)),
                 Rd::Ns(t) => format!("NS {}", name_text(names, t)),
+                Rd::Opaque(l) => format!("TYPE{OPAQUE_TYPE} with {l} RDATA octets"),
             }
         ),
         Op::PadTo(t) => format!("answer record . TYPE65280 padded so that it ends at message offset {t}"),
@@ -2026,6 +2037,7 @@ struct Norm {
 }
 
 const PAD_TYPE: u16 = 65280;
+const OPAQUE_TYPE: u16 = 65281;
 const TTL: u32 = 300;
 
 fn intended(op: Op, names: &[Vec<u8>], padlen: usize) -> Norm {
@@ -2036,6 +2048,7 @@ fn intended(op: Op, names: &[Vec<u8>], padlen: usize) -> Norm {
                 Rd::A => (1, vec![192, 0, 2, 1]),
                 Rd::Cname(x) => (5, names[x].to_ascii_lowercase()),
                 Rd::Ns(x) => (2, names[x].to_ascii_lowercase()),
+                Rd::Opaque(l) => (OPAQUE_TYPE, vec![0xDD; l as usize]),
             };
             Norm { sec: s, name: names[n].to_ascii_lowercase(), t, c: 1, ttl: TTL, rdata }
         }
@@ -2085,13 +2098,13 @@ struct BuildOut {
     want_flags: u16,
 }
 
-enum OB {
-    Q(QuestionBuilder<TreeCompressor<Vec<u8>>>),
-    An(AnswerBuilder<TreeCompressor<Vec<u8>>>),
-    Ns(AuthorityBuilder<TreeCompressor<Vec<u8>>>),
-    Ar(AdditionalBuilder<TreeCompressor<Vec<u8>>>),
+enum OB<T> {
+    Q(QuestionBuilder<T>),
+    An(AnswerBuilder<T>),
+    Ns(AuthorityBuilder<T>),
+    Ar(AdditionalBuilder<T>),
 }
-impl OB {
+impl<T: ob::wire::Composer> OB<T> {
     fn len(&self) -> usize {
         match self {
             OB::Q(b) => b.as_slice().len(),
@@ -2100,7 +2113,7 @@ impl OB {
             OB::Ar(b) => b.as_slice().len(),
         }
     }
-    fn goto(self, s: usize) -> OB {
+    fn goto(self, s: usize) -> OB<T> {
         match (self, s) {
             (OB::Q(x), 0) => OB::Q(x),
             (OB::Q(x), 1) => OB::An(x.answer()),
@@ -2116,10 +2129,37 @@ impl OB {
     }
     fn finish(self) -> Vec<u8> {
         match self {
-            OB::Q(b) => b.finish().into_target(),
-            OB::An(b) => b.finish().into_target(),
-            OB::Ns(b) => b.finish().into_target(),
-            OB::Ar(b) => b.finish().into_target(),
+            OB::Q(b) => b.finish().as_ref().to_vec(),
+            OB::An(b) => b.finish().as_ref().to_vec(),
+            OB::Ns(b) => b.finish().as_ref().to_vec(),
+            OB::Ar(b) => b.finish().as_ref().to_vec(),
+        }
+    }
+    /// The builder's own way one section back (all items of the current
+    /// section are dropped, "all previously added [items of the earlier
+    /// sections] will, however, remain").
+    fn back(self) -> OB<T> {
+        match self {
+            OB::Q(x) => OB::Q(x),
+            OB::An(x) => OB::Q(x.question()),
+            OB::Ns(x) => OB::An(x.answer()),
+            OB::Ar(x) => OB::Ns(x.authority()),
+        }
+    }
+    fn rewind(&mut self) {
+        match self {
+            OB::Q(x) => x.rewind(),
+            OB::An(x) => x.rewind(),
+            OB::Ns(x) => x.rewind(),
+            OB::Ar(x) => x.rewind(),
+        }
+    }
+    fn mb(&mut self) -> &mut ob::MessageBuilder<T> {
+        match self {
+            OB::Q(b) => b.as_builder_mut(),
+            OB::An(b) => b.as_builder_mut(),
+            OB::Ns(b) => b.as_builder_mut(),
+            OB::Ar(b) => b.as_builder_mut(),
         }
     }
 }
@@ -2128,9 +2168,13 @@ fn oname(w: &[u8]) -> ON {
     ON::from_octets(w.to_vec()).expect("valid name")
 }
 
+fn old_opaque_data(len: u8) -> ORd {
+    ORd::Unknown(OldUnknown::from_octets(ob::iana::Rtype::from_int(OPAQUE_TYPE), vec![0xDD; len as usize]).expect("opaque"))
+}
+
 fn run_old(ops: &[Op], names: &[Vec<u8>]) -> BuildOut {
     let mut out = BuildOut::default();
-    let mut b = OB::Q(ob::MessageBuilder::from_target(TreeCompressor::new(Vec::<u8>::new())).expect("target").question());
+    let mut b: OB<TreeCompressor<Vec<u8>>> = OB::Q(ob::MessageBuilder::from_target(TreeCompressor::new(Vec::<u8>::new())).expect("target").question());
     let mut counts = [0usize; 4];
     for &op in ops {
         if op == Op::Truncate || op == Op::NewMessage {
@@ -2162,6 +2206,7 @@ fn run_old(ops: &[Op], names: &[Vec<u8>]) -> BuildOut {
                     Rd::A => ORd::A(domain::rdata::A::from_octets(192, 0, 2, 1)),
                     Rd::Cname(x) => ORd::Cname(domain::rdata::Cname::new(oname(&names[x]))),
                     Rd::Ns(x) => ORd::Ns(domain::rdata::Ns::new(oname(&names[x]))),
+                    Rd::Opaque(l) => old_opaque_data(l),
                 };
                 let rec = ob::Record::new(oname(&names[n]), ob::iana::Class::IN, ob::Ttl::from_secs(TTL), data);
                 match &mut b {
@@ -2228,6 +2273,11 @@ fn push_rec<N: domain::new::base::build::BuildInMessage>(b: &mut NewBuilder<'_, 
 /// `rev_owner`: owner names and qnames are given as RevNameBuf (compress_revname),
 /// otherwise as &Name (compress_name); names in RDATA are always &Name.
 fn run_new(ops: &[Op], names: &[Vec<u8>], rev_owner: bool, limit: Option<usize>) -> BuildOut {
+    run_new_in(ops, names, rev_owner, limit, None)
+}
+
+/// `buffer`: the builder is given a buffer of exactly this many octets (otherwise an ample one).
+fn run_new_in(ops: &[Op], names: &[Vec<u8>], rev_owner: bool, limit: Option<usize>, buffer: Option<usize>) -> BuildOut {
     // Op::NewMessage: the message built so far is finished and a new message is
     // begun with the SAME compressor ("The name compressor will be reset in
     // case it was used before", MessageBuilder::new); only the last message is checked
@@ -2235,7 +2285,7 @@ fn run_new(ops: &[Op], names: &[Vec<u8>], rev_owner: bool, limit: Option<usize>)
     let mut out = BuildOut::default();
     let mut stats = (0u32, 0u32, 0u32, 0u32);
     for seg in ops.split(|o| *o == Op::NewMessage) {
-        out = run_new_message(seg, names, rev_owner, limit, &mut compressor);
+        out = run_new_message(seg, names, rev_owner, limit, buffer, &mut compressor);
         stats = (stats.0 + out.accepted, stats.1 + out.misplaced, stats.2 + out.pad_skipped, stats.3 + out.truncated_pushes);
         if !out.errs.is_empty() {
             break;
@@ -2245,13 +2295,15 @@ fn run_new(ops: &[Op], names: &[Vec<u8>], rev_owner: bool, limit: Option<usize>)
     out
 }
 
-fn run_new_message(ops: &[Op], names: &[Vec<u8>], rev_owner: bool, limit: Option<usize>, compressor: &mut NameCompressor) -> BuildOut {
+fn run_new_message(ops: &[Op], names: &[Vec<u8>], rev_owner: bool, limit: Option<usize>, buffer: Option<usize>, compressor: &mut NameCompressor) -> BuildOut {
     let mut out = BuildOut::default();
+    let buffer_given = buffer.is_some();
     let pads = ops.iter().any(|o| matches!(o, Op::PadTo(_)));
-    let mut buffer = vec![0u8; if pads { 24 * 1024 } else { 12 + 300 * ops.len().max(1) }];
+    let mut buffer = vec![0u8; buffer.unwrap_or(if pads { 24 * 1024 } else { 12 + 300 * ops.len().max(1) })];
     let mut b = NewBuilder::new(&mut buffer, compressor, U16::new(0), HeaderFlags::default());
     let mut counts = [0usize; 4];
     let pad_store = vec![0xEEu8; if pads { 17000 } else { 0 }];
+    let opaque_store = [0xDDu8; 255];
     // the names are handed to the builder as NameBuf / RevNameBuf parsed from
     // their (valid, uncompressed) wire form; a refusal is the codec's fault
     static PARSED: std::sync::OnceLock<Result<(Vec<NameBuf>, Vec<RevNameBuf>), String>> = std::sync::OnceLock::new();
@@ -2324,6 +2376,7 @@ fn run_new_message(ops: &[Op], names: &[Vec<u8>], rev_owner: bool, limit: Option
                     Rd::A => (nb::RType::A, NRecordData::A(domain::new::rdata::A { octets: [192, 0, 2, 1] })),
                     Rd::Cname(x) => (nb::RType::CNAME, NRecordData::CName(domain::new::rdata::CName { name: &*nbufs[x] })),
                     Rd::Ns(x) => (nb::RType::NS, NRecordData::Ns(domain::new::rdata::Ns { server: &*nbufs[x] })),
+                    Rd::Opaque(l) => (nb::RType::from(OPAQUE_TYPE), NRecordData::Unknown(nb::RType::from(OPAQUE_TYPE), NewUnknown::parse_bytes_by_ref(&opaque_store[..l as usize]).expect("unknown data"))),
                 };
                 if rev_owner {
                     push_rec(&mut b, sec, revs[n].clone(), rtype, rdata)
@@ -2372,7 +2425,7 @@ fn run_new_message(ops: &[Op], names: &[Vec<u8>], rev_owner: bool, limit: Option
                 out.want.push(intended(op, names, padlen));
             }
             // with a size limit, whether an item still fits is taken from the implementation
-            (false, Err(MessageBuildError::Truncated(_))) if limit.is_some() => out.truncated_pushes += 1,
+            (false, Err(MessageBuildError::Truncated(_))) if limit.is_some() || buffer_given => out.truncated_pushes += 1,
             (false, Err(e)) => out.errs.push(format!("new-builder|push-refused-with-ample-buffer|{}", if e == MessageBuildError::Misplaced { "Misplaced" } else { "Truncated" })),
         }
     }
@@ -2816,6 +2869,530 @@ fn run_flags_case(ctx: &Ctx, stats: &Stats, bits7: u8, opcode: u8, rcode: u8) {
     }
 }
 
+// ------------------------------------------- Part 2b: builders under faults
+//
+// Build scripts in which pushes FAIL (push limit, end of the buffer at a
+// chosen octet, a fixed capacity that a big record exceeds), sections are
+// rewound or left backwards, or the message is truncate()d -- and later
+// pushes land at the offsets the dropped octets occupied and use the dropped
+// names again (as owner, as a name in RDATA, in another letter case). Every
+// script runs on the established builder over every compressor (none,
+// Static, Tree, Hash) and on the new builder; the output is read by the
+// independent reader and by BOTH codecs and must hold exactly the items whose
+// push was accepted and not rolled back since.
+
+/// A target whose end can be moved by the harness: appending beyond `cap`
+/// octets fails and "leaves the builder alone" (OctetsBuilder::append_slice).
+struct Bounded {
+    buf: Vec<u8>,
+    cap: std::rc::Rc<std::cell::Cell<usize>>,
+}
+impl octseq::OctetsBuilder for Bounded {
+    type AppendError = octseq::ShortBuf;
+    fn append_slice(&mut self, slice: &[u8]) -> Result<(), Self::AppendError> {
+        if self.buf.len() + slice.len() > self.cap.get() {
+            return Err(octseq::ShortBuf);
+        }
+        self.buf.extend_from_slice(slice);
+        Ok(())
+    }
+}
+impl octseq::Truncate for Bounded {
+    fn truncate(&mut self, len: usize) {
+        self.buf.truncate(len)
+    }
+}
+impl AsRef<[u8]> for Bounded {
+    fn as_ref(&self) -> &[u8] {
+        &self.buf
+    }
+}
+impl AsMut<[u8]> for Bounded {
+    fn as_mut(&mut self) -> &mut [u8] {
+        &mut self.buf
+    }
+}
+impl ob::wire::Composer for Bounded {}
+
+/// Item menu of the fault family: owners that are new / known / a suffix of a
+/// known name / a case variant, a name in RDATA, a big record, all sections.
+const FT_ITEMS: [Op; 8] = [
+    Op::Q(0),
+    Op::R(1, 1, Rd::A),
+    Op::R(1, 3, Rd::A),
+    Op::R(1, 3, Rd::Opaque(48)),
+    Op::R(1, 0, Rd::Ns(3)),
+    Op::R(1, 2, Rd::Cname(3)),
+    Op::R(2, 0, Rd::Ns(1)),
+    Op::R(3, 3, Rd::A),
+];
+
+/// room value meaning "one octet less than the item needs uncompressed"
+const ROOM_LAST: u16 = 0xFFFF;
+
+#[derive(Clone, Copy, Debug, PartialEq)]
+enum Fault {
+    None,
+    /// set_push_limit(current length + room) for this push only
+    Limit(u16),
+    /// the buffer ends `room` octets after the current length, for this push only
+    Short(u16),
+}
+
+#[derive(Clone, Copy, Debug, PartialEq)]
+enum FStep {
+    Push(usize, Fault),
+    /// established builder: rewind() of the current section
+    Rewind,
+    /// established builder: back to the previous section through question() / answer() / authority()
+    Back,
+    /// new builder: truncate()
+    Truncate,
+}
+
+/// A capacity that holds for the whole script.
+#[derive(Clone, Copy, Debug, PartialEq)]
+enum Fixed {
+    None,
+    /// the target / buffer has exactly this many octets
+    Buffer(usize),
+    /// set_push_limit(L) / limit_to(L) before the first push
+    Limit(usize),
+}
+
+#[derive(Clone, Copy, Debug, PartialEq)]
+enum FBuilder {
+    /// compressor 0 = none, 1 = Static, 2 = Tree, 3 = Hash; target Vec<u8> or Bounded
+    Old(u8, bool),
+    /// owner names given as RevNameBuf / as &Name
+    New(bool),
+}
+
+fn fbuilder_name(b: FBuilder) -> String {
+    match b {
+        FBuilder::Old(c, bounded) => format!("established/{}/{}", ["none", "StaticCompressor", "TreeCompressor", "HashCompressor"][c as usize], if bounded { "Bounded" } else { "Vec" }),
+        FBuilder::New(true) => "new/owner=RevNameBuf".into(),
+        FBuilder::New(false) => "new/owner=&Name".into(),
+    }
+}
+
+fn fstep_json(st: &FStep) -> Value {
+    match st {
+        FStep::Push(i, Fault::None) => json!(["push", i]),
+        FStep::Push(i, Fault::Limit(r)) => json!(["push", i, "limit", r]),
+        FStep::Push(i, Fault::Short(r)) => json!(["push", i, "short", r]),
+        FStep::Rewind => json!(["rewind"]),
+        FStep::Back => json!(["back"]),
+        FStep::Truncate => json!(["truncate"]),
+    }
+}
+
+fn fstep_from_json(v: &Value) -> FStep {
+    let a = v.as_array().expect("step");
+    match a[0].as_str().expect("step kind") {
+        "push" => {
+            let i = a[1].as_u64().expect("item") as usize;
+            let f = match a.get(2).and_then(|x| x.as_str()) {
+                None => Fault::None,
+                Some("limit") => Fault::Limit(a[3].as_u64().expect("room") as u16),
+                Some(_) => Fault::Short(a[3].as_u64().expect("room") as u16),
+            };
+            FStep::Push(i, f)
+        }
+        "rewind" => FStep::Rewind,
+        "back" => FStep::Back,
+        _ => FStep::Truncate,
+    }
+}
+
+fn fstep_desc(st: &FStep, names: &[Vec<u8>]) -> String {
+    let room = |r: &u16| if *r == ROOM_LAST { "one octet less than the item needs uncompressed".to_string() } else { format!("{r} octets") };
+    match st {
+        FStep::Push(i, Fault::None) => op_desc(FT_ITEMS[*i], names),
+        FStep::Push(i, Fault::Limit(r)) => format!("{} -- with the push limit set to the current length + {}", op_desc(FT_ITEMS[*i], names), room(r)),
+        FStep::Push(i, Fault::Short(r)) => format!("{} -- with the buffer ending {} after the current length", op_desc(FT_ITEMS[*i], names), room(r)),
+        FStep::Rewind => "rewind() of the current section (established builder)".into(),
+        FStep::Back => "back to the previous section (established builder)".into(),
+        FStep::Truncate => "truncate() (new builder)".into(),
+    }
+}
+
+/// Octets the item needs when no name is compressed.
+fn item_size(op: Op, names: &[Vec<u8>]) -> usize {
+    let n = intended(op, names, 0);
+    n.name.len() + if n.sec == 0 { 4 } else { 10 + n.rdata.len() }
+}
+
+#[derive(Default)]
+struct FOut {
+    msg: Vec<u8>,
+    want: Vec<Norm>,
+    errs: Vec<String>,
+    accepted: u32,
+    refused: u32,
+    misplaced: u32,
+    rolled_back_items: u32,
+    want_flags: u16,
+    /// refused push / rewind / section left backwards / truncate() happened
+    happened: [bool; 4],
+}
+
+fn old_record(op: Op, names: &[Vec<u8>]) -> ob::Record<ON, ORd> {
+    let Op::R(_, n, rd) = op else { unreachable!("record item") };
+    let data: ORd = match rd {
+        Rd::A => ORd::A(domain::rdata::A::from_octets(192, 0, 2, 1)),
+        Rd::Cname(x) => ORd::Cname(domain::rdata::Cname::new(oname(&names[x]))),
+        Rd::Ns(x) => ORd::Ns(domain::rdata::Ns::new(oname(&names[x]))),
+        Rd::Opaque(l) => old_opaque_data(l),
+    };
+    ob::Record::new(oname(&names[n]), ob::iana::Class::IN, ob::Ttl::from_secs(TTL), data)
+}
+
+fn run_old_fault<T: ob::wire::Composer>(target: T, cap: Option<&std::cell::Cell<usize>>, fixed: Fixed, steps: &[FStep], names: &[Vec<u8>]) -> FOut {
+    let mut out = FOut::default();
+    let base_cap = match fixed {
+        Fixed::Buffer(l) => l,
+        _ => usize::MAX,
+    };
+    if let Some(c) = cap {
+        c.set(base_cap);
+    }
+    let mut mb = match ob::MessageBuilder::from_target(target) {
+        Ok(b) => b,
+        Err(_) => {
+            out.errs.push("established-builder|from_target-refused-although-the-header-fits".into());
+            return out;
+        }
+    };
+    if let Fixed::Limit(l) = fixed {
+        mb.set_push_limit(l);
+    }
+    let mut b = OB::Q(mb.question());
+    let mut stage = 0usize;
+    let mut lists: [Vec<Norm>; 4] = Default::default();
+    for st in steps {
+        match *st {
+            FStep::Truncate => {}
+            FStep::Rewind => {
+                b.rewind();
+                out.happened[1] = true;
+                out.rolled_back_items += lists[stage].len() as u32;
+                lists[stage].clear();
+            }
+            FStep::Back => {
+                if stage > 0 {
+                    b = b.back();
+                    out.happened[2] = true;
+                    out.rolled_back_items += lists[stage].len() as u32;
+                    lists[stage].clear();
+                    stage -= 1;
+                }
+            }
+            FStep::Push(i, fault) => {
+                let op = FT_ITEMS[i];
+                let s = op_section(op);
+                if s < stage {
+                    // the typed builders offer no way to push into an earlier section
+                    out.misplaced += 1;
+                    continue;
+                }
+                b = b.goto(s);
+                stage = s;
+                let cur = b.len();
+                let room = |r: u16| if r == ROOM_LAST { item_size(op, names) - 1 } else { r as usize };
+                match fault {
+                    Fault::None => {}
+                    Fault::Limit(r) => b.mb().set_push_limit(cur + room(r)),
+                    Fault::Short(r) => cap.expect("a movable end needs the Bounded target").set(cur + room(r)),
+                }
+                let ok = match (&mut b, op) {
+                    (OB::Q(q), Op::Q(n)) => q.push(ob::Question::new(oname(&names[n]), ob::iana::Rtype::A, ob::iana::Class::IN)).is_ok(),
+                    (OB::An(x), _) => x.push(old_record(op, names)).is_ok(),
+                    (OB::Ns(x), _) => x.push(old_record(op, names)).is_ok(),
+                    (OB::Ar(x), _) => x.push(old_record(op, names)).is_ok(),
+                    _ => unreachable!("section"),
+                };
+                match fault {
+                    Fault::None => {}
+                    Fault::Limit(_) => match fixed {
+                        Fixed::Limit(l) => b.mb().set_push_limit(l),
+                        _ => b.mb().clear_push_limit(),
+                    },
+                    Fault::Short(_) => cap.expect("bounded").set(base_cap),
+                }
+                if ok {
+                    out.accepted += 1;
+                    lists[s].push(intended(op, names, 0));
+                } else {
+                    out.refused += 1;
+                    out.happened[0] = true;
+                    if fault == Fault::None && fixed == Fixed::None {
+                        out.errs.push("established-builder|push-refused-with-unbounded-target".into());
+                    }
+                }
+            }
+        }
+    }
+    out.msg = b.finish();
+    out.want = lists.concat();
+    out
+}
+
+fn run_fault_builder(builder: FBuilder, fixed: Fixed, steps: &[FStep], names: &[Vec<u8>]) -> FOut {
+    use domain::base::message_builder::{HashCompressor, StaticCompressor};
+    match builder {
+        FBuilder::Old(comp, bounded) => {
+            let cap = std::rc::Rc::new(std::cell::Cell::new(usize::MAX));
+            if let Fixed::Buffer(l) = fixed {
+                cap.set(l);
+            }
+            let bt = || Bounded { buf: Vec::new(), cap: cap.clone() };
+            match (comp, bounded) {
+                (0, false) => run_old_fault(Vec::<u8>::new(), None, fixed, steps, names),
+                (1, false) => run_old_fault(StaticCompressor::new(Vec::<u8>::new()), None, fixed, steps, names),
+                (2, false) => run_old_fault(TreeCompressor::new(Vec::<u8>::new()), None, fixed, steps, names),
+                (_, false) => run_old_fault(HashCompressor::new(Vec::<u8>::new()), None, fixed, steps, names),
+                (0, true) => run_old_fault(bt(), Some(&cap), fixed, steps, names),
+                (1, true) => run_old_fault(StaticCompressor::new(bt()), Some(&cap), fixed, steps, names),
+                (2, true) => run_old_fault(TreeCompressor::new(bt()), Some(&cap), fixed, steps, names),
+                (_, true) => run_old_fault(HashCompressor::new(bt()), Some(&cap), fixed, steps, names),
+            }
+        }
+        FBuilder::New(rev_owner) => {
+            let ops: Vec<Op> = steps
+                .iter()
+                .filter_map(|st| match st {
+                    FStep::Push(i, _) => Some(FT_ITEMS[*i]),
+                    FStep::Truncate => Some(Op::Truncate),
+                    _ => None,
+                })
+                .collect();
+            let (limit, buffer) = match fixed {
+                Fixed::None => (None, None),
+                Fixed::Buffer(l) => (None, Some(l)),
+                Fixed::Limit(l) => (Some(l), None),
+            };
+            let o = run_new_in(&ops, names, rev_owner, limit, buffer);
+            FOut {
+                msg: o.msg,
+                want: o.want,
+                errs: o.errs,
+                accepted: o.accepted,
+                refused: o.truncated_pushes,
+                misplaced: o.misplaced,
+                rolled_back_items: 0,
+                want_flags: o.want_flags,
+                happened: [o.truncated_pushes > 0, false, false, ops.contains(&Op::Truncate)],
+            }
+        }
+    }
+}
+
+struct FaultStats {
+    cases: AtomicU64,
+    accepted: AtomicU64,
+    refused: AtomicU64,
+    misplaced: AtomicU64,
+    rolled_back_items: AtomicU64,
+    /// cases in which an item was accepted after a refused push / rewind / section rollback / truncate()
+    push_after: [AtomicU64; 4],
+    with_pointers: AtomicU64,
+    all_equal: AtomicU64,
+    /// per builder: [cases, cases with a refused push]
+    by_builder: [[AtomicU64; 2]; 10],
+}
+
+fn fbuilder_index(b: FBuilder) -> usize {
+    match b {
+        FBuilder::Old(c, bounded) => c as usize * 2 + bounded as usize,
+        FBuilder::New(rev) => 8 + rev as usize,
+    }
+}
+
+fn fault_case_json(builder: FBuilder, fixed: Fixed, steps: &[FStep], names: &[Vec<u8>]) -> Value {
+    json!({
+        "part": "build-fault",
+        "builder": fbuilder_name(builder),
+        "builder_code": match builder { FBuilder::Old(c, b) => json!(["old", c, b]), FBuilder::New(r) => json!(["new", r]) },
+        "fixed": match fixed { Fixed::None => Value::Null, Fixed::Buffer(l) => json!(["buffer", l]), Fixed::Limit(l) => json!(["limit", l]) },
+        "steps": steps.iter().map(fstep_json).collect::<Vec<_>>(),
+        "steps_text": steps.iter().map(|st| fstep_desc(st, names)).collect::<Vec<_>>(),
+    })
+}
+
+/// Runs one script on one builder and checks the output. Returns the length of the message.
+fn run_fault_case(ctx: &Ctx, stats: &Stats, fs: &FaultStats, wd: &Watchdog, builder: FBuilder, fixed: Fixed, steps: &[FStep], names: &[Vec<u8>]) -> usize {
+    stats.eval();
+    fs.cases.fetch_add(1, AO::Relaxed);
+    let verbose = ctx.replay.is_some();
+    let bname = fbuilder_name(builder);
+    let bsig = bname.replacen('/', "(", 1) + ")";
+    let case = || fault_case_json(builder, fixed, steps, names);
+    wd.enter(|| json!({"part": "build-fault", "builder": bname, "fixed": format!("{fixed:?}"), "steps": format!("{steps:?}")}));
+    let built = guard(|| run_fault_builder(builder, fixed, steps, names));
+    let out = match built {
+        Ok(o) => o,
+        Err(p) => {
+            wd.leave();
+            ctx.violation(&format!("C19|build-fault|builder={bsig}|panic|{}", panic_class(&p)), &format!("{bname}: {p}"), case());
+            if verbose {
+                println!("{bname}: PANIC {p}");
+            }
+            return 0;
+        }
+    };
+    let r_old = guard(|| read_old(&out.msg));
+    let r_new = guard(|| read_new(&out.msg));
+    wd.leave();
+    fs.accepted.fetch_add(out.accepted as u64, AO::Relaxed);
+    fs.by_builder[fbuilder_index(builder)][0].fetch_add(1, AO::Relaxed);
+    if out.refused > 0 {
+        fs.by_builder[fbuilder_index(builder)][1].fetch_add(1, AO::Relaxed);
+    }
+    fs.refused.fetch_add(out.refused as u64, AO::Relaxed);
+    fs.misplaced.fetch_add(out.misplaced as u64, AO::Relaxed);
+    fs.rolled_back_items.fetch_add(out.rolled_back_items as u64, AO::Relaxed);
+    for e in &out.errs {
+        ctx.violation(&format!("C19|build-fault|{e}"), e, case());
+    }
+    let mut parts = Vec::new();
+    for (i, n) in ["refused-push", "rewind", "section-left-backwards", "truncate()"].iter().enumerate() {
+        if out.happened[i] {
+            parts.push(*n);
+            if !out.want.is_empty() {
+                fs.push_after[i].fetch_add(1, AO::Relaxed);
+            }
+        }
+    }
+    let cause = if parts.is_empty() { "no-fault".to_string() } else { parts.join("+") };
+    if verbose {
+        println!("{bname}: {} octets, {} pushes accepted, {} refused, {} misplaced, {} items rolled back: {}", out.msg.len(), out.accepted, out.refused, out.misplaced, out.rolled_back_items, hex(&out.msg));
+    }
+    if out.msg.len() >= 4 && u16::from_be_bytes([out.msg[2], out.msg[3]]) != out.want_flags {
+        ctx.violation(&format!("C19|build-fault|builder={bsig}|header-flags-differ-from-expected|cause={cause}"), &format!("{bname}: flags word {:#06x}, expected {:#06x}", u16::from_be_bytes([out.msg[2], out.msg[3]]), out.want_flags), case());
+    }
+    match fixed {
+        Fixed::Buffer(l) | Fixed::Limit(l) if out.msg.len() > l => {
+            ctx.violation(&format!("C19|build-fault|builder={bsig}|message-exceeds-the-capacity-given"), &format!("{bname}: {} octets with capacity {l}", out.msg.len()), case());
+        }
+        _ => {}
+    }
+    let mut all_ok = true;
+    let indep_ok = match read_indep(&out.msg) {
+        Ok((got, nptr, _)) => {
+            if verbose {
+                println!("  independent reader: {} items, {nptr} pointers: {}", got.len(), first_diff(&out.want, &got));
+            }
+            if nptr > 0 {
+                fs.with_pointers.fetch_add(1, AO::Relaxed);
+                if out.happened.iter().any(|h| *h) {
+                    stats.nontrivial.fetch_add(1, AO::Relaxed);
+                    stats.distinct(fnv(format!("{builder:?}{fixed:?}{steps:?}").as_bytes()) | 1 << 61);
+                }
+            }
+            if got != out.want {
+                ctx.violation(&format!("C19|build-fault|builder={bsig}|output-does-not-read-back-as-accepted(independent-reader)|cause={cause}"), &format!("{bname}: {}", first_diff(&out.want, &got)), case());
+                false
+            } else {
+                true
+            }
+        }
+        Err(e) => {
+            if verbose {
+                println!("  independent reader: ERROR {e}");
+            }
+            ctx.violation(&format!("C19|build-fault|builder={bsig}|output-does-not-read-back-as-accepted(independent-reader)|cause={cause}"), &format!("{bname}: independent reader: {e}"), case());
+            false
+        }
+    };
+    all_ok &= indep_ok;
+    let own = if matches!(builder, FBuilder::New(_)) { "new" } else { "established" };
+    for (reader, res) in [("established", &r_old), ("new", &r_new)] {
+        let role = if reader == own { "own-codec" } else { "other-codec" };
+        match res {
+            Ok(Ok(got)) => {
+                if verbose {
+                    println!("  {reader} codec's parser ({role}): {} items: {}", got.len(), first_diff(&out.want, got));
+                }
+                if *got != out.want {
+                    all_ok = false;
+                    // a garbled output is reported once, above; here only a reader-side disagreement
+                    if indep_ok {
+                        ctx.violation(&format!("C19|build-fault|builder={bsig}|read-by={reader}({role})|content-differs-although-independent-reader-agrees-with-accepted|cause={cause}"), &format!("{bname}: {}", first_diff(&out.want, got)), case());
+                    }
+                }
+            }
+            Ok(Err(e)) => {
+                all_ok = false;
+                if verbose {
+                    println!("  {reader} codec's parser ({role}): ERROR {e}");
+                }
+                if indep_ok {
+                    ctx.violation(&format!("C19|build-fault|builder={bsig}|read-by={reader}({role})|rejected-although-independent-reader-agrees-with-accepted|cause={cause}"), &format!("{bname}: {e}"), case());
+                }
+            }
+            Err(p) => {
+                all_ok = false;
+                ctx.violation(&format!("C19|build-fault|builder={bsig}|read-by={reader}({role})|panic|{}", panic_class(p)), p, case());
+            }
+        }
+    }
+    if all_ok {
+        fs.all_equal.fetch_add(1, AO::Relaxed);
+    }
+    out.msg.len()
+}
+
+/// Every way of attaching at most `max_faults` faults from the menu to the pushes of a base script.
+fn with_faults(base: &[FStep], menu: &dyn Fn(usize) -> Vec<Fault>, max_faults: usize, f: &mut dyn FnMut(&[FStep])) {
+    fn rec(base: &[FStep], pos: usize, left: usize, cur: &mut Vec<FStep>, menu: &dyn Fn(usize) -> Vec<Fault>, f: &mut dyn FnMut(&[FStep])) {
+        if pos == base.len() {
+            f(cur);
+            return;
+        }
+        cur.push(base[pos]);
+        rec(base, pos + 1, left, cur, menu, f);
+        cur.pop();
+        if left > 0 {
+            if let FStep::Push(i, _) = base[pos] {
+                for fault in menu(i) {
+                    cur.push(FStep::Push(i, fault));
+                    rec(base, pos + 1, left - 1, cur, menu, f);
+                    cur.pop();
+                }
+            }
+        }
+    }
+    rec(base, 0, max_faults, &mut Vec::new(), menu, f);
+}
+
+const OLD_COMPRESSORS: [&str; 4] = ["none", "StaticCompressor", "TreeCompressor", "HashCompressor"];
+
+/// Fault scripts of the established builder: one base script with every fault
+/// assignment on every compressor. Scripts with a movable buffer end run on
+/// the Bounded target, the others on Vec<u8>.
+fn run_old_fault_scripts(ctx: &Ctx, stats: &Stats, fs: &FaultStats, wd: &Watchdog, base: &[FStep], menu: &dyn Fn(usize) -> Vec<Fault>, max_faults: usize, names: &[Vec<u8>]) {
+    with_faults(base, menu, max_faults, &mut |steps| {
+        let bounded = steps.iter().any(|st| matches!(st, FStep::Push(_, Fault::Short(_))));
+        for comp in 0..OLD_COMPRESSORS.len() as u8 {
+            run_fault_case(ctx, stats, fs, wd, FBuilder::Old(comp, bounded), Fixed::None, steps, names);
+        }
+    });
+}
+
+/// One fault-free script under every fixed capacity from the bare header to
+/// the size at which everything fits.
+fn run_fixed_capacity_scripts(ctx: &Ctx, stats: &Stats, fs: &FaultStats, wd: &Watchdog, builder: FBuilder, modes: &[u8], steps: &[FStep], names: &[Vec<u8>]) {
+    let full = run_fault_case(ctx, stats, fs, wd, builder, Fixed::None, steps, names);
+    // the established builder's push limit refuses a push that ends AT the limit
+    for l in 12..=full + 1 {
+        for m in modes {
+            let fixed = if *m == 0 { Fixed::Buffer(l) } else { Fixed::Limit(l) };
+            run_fault_case(ctx, stats, fs, wd, builder, fixed, steps, names);
+        }
+    }
+}
+
 // --------------------------------------------------------------------- main
 
 fn offsets_of(items: &[&GItem], len: usize) -> Vec<usize> {
@@ -2847,12 +3424,37 @@ fn main() {
         limited: AtomicU64::new(0),
         truncated_pushes: AtomicU64::new(0),
     };
+    let fs = FaultStats {
+        cases: AtomicU64::new(0),
+        accepted: AtomicU64::new(0),
+        refused: AtomicU64::new(0),
+        misplaced: AtomicU64::new(0),
+        rolled_back_items: AtomicU64::new(0),
+        push_after: [AtomicU64::new(0), AtomicU64::new(0), AtomicU64::new(0), AtomicU64::new(0)],
+        with_pointers: AtomicU64::new(0),
+        all_equal: AtomicU64::new(0),
+        by_builder: Default::default(),
+    };
     if let Some(path) = &ctx.replay {
         let v: Value = serde_json::from_str(&std::fs::read_to_string(path).expect("replay file")).expect("json");
         let case = &v["case"];
         println!("replaying {}", v["signature"]);
         if case["part"].as_str() == Some("build-flags") {
             run_flags_case(&ctx, &stats, case["bits7"].as_u64().unwrap() as u8, case["opcode"].as_u64().unwrap() as u8, case["rcode"].as_u64().unwrap() as u8);
+        } else if case["part"].as_str() == Some("build-fault") {
+            let steps: Vec<FStep> = case["steps"].as_array().expect("steps").iter().map(fstep_from_json).collect();
+            for st in &steps {
+                println!("  {}", fstep_desc(st, &names));
+            }
+            let bc = case["builder_code"].as_array().expect("builder_code");
+            let builder = if bc[0].as_str() == Some("old") { FBuilder::Old(bc[1].as_u64().unwrap() as u8, bc[2].as_bool().unwrap()) } else { FBuilder::New(bc[1].as_bool().unwrap()) };
+            let fixed = match case["fixed"].as_array() {
+                None => Fixed::None,
+                Some(a) if a[0].as_str() == Some("buffer") => Fixed::Buffer(a[1].as_u64().unwrap() as usize),
+                Some(a) => Fixed::Limit(a[1].as_u64().unwrap() as usize),
+            };
+            println!("  capacity for the whole script: {fixed:?}");
+            run_fault_case(&ctx, &stats, &fs, &wd, builder, fixed, &steps, &names);
         } else if case["part"].as_str() == Some("build-edns") {
             let e: Vec<usize> = case["edns"].as_array().expect("edns").iter().map(|x| x.as_u64().unwrap() as usize).collect();
             let ops = edns_case_ops(case["pre"].as_bool().unwrap(), [e[0], e[1], e[2], e[3], e[4]], case["post"].as_bool().unwrap());
@@ -3121,6 +3723,57 @@ fn main() {
             run_fold_case(&ctx, &stats, &bs, &wd, &it, &names);
         });
     }
+    // fault scripts (see Part 2b)
+    let build_evals_before_faults = stats.evals();
+    let ft_old_alphabet: Vec<FStep> = (0..FT_ITEMS.len()).map(|i| FStep::Push(i, Fault::None)).chain([FStep::Rewind, FStep::Back]).collect();
+    let ft_new_alphabet: Vec<FStep> = (0..FT_ITEMS.len()).map(|i| FStep::Push(i, Fault::None)).chain([FStep::Truncate]).collect();
+    // faults attached to single pushes (established builder): passes of
+    // (script depth, faults per script at most, every buffer end instead of the landmark menu)
+    let ft_passes: &[(usize, usize, bool)] = if quick { &[(4, 2, false)] } else { &[(5, 1, false), (4, 3, false), (4, 1, true)] };
+    for &(ft_depth, ft_max_faults, every_cut) in ft_passes {
+        let fault_menu = |item: usize| -> Vec<Fault> {
+            if every_cut {
+                let size = item_size(FT_ITEMS[item], &names);
+                let mut v = vec![Fault::Limit(ROOM_LAST)];
+                v.extend((0..size as u16).map(Fault::Short));
+                v
+            } else {
+                // nothing written / the owner (compressed against a known suffix or not) partly or just written / all but the last octet
+                vec![Fault::Limit(0), Fault::Short(0), Fault::Short(7), Fault::Short(ROOM_LAST)]
+            }
+        };
+        for d in 1..=ft_depth {
+            (0..pow(ft_old_alphabet.len(), d)).into_par_iter().for_each(|k| {
+                let mut base = Vec::new();
+                nth_string(&ft_old_alphabet, d, k, &mut base);
+                run_old_fault_scripts(&ctx, &stats, &fs, &wd, &base, &fault_menu, ft_max_faults, &names);
+            });
+        }
+    }
+    // a fixed capacity for the whole script, every capacity: the buffer has
+    // exactly L octets; thorough to depth 3 also set_push_limit(L) / limit_to(L)
+    let fx_depth = if quick { 3 } else { 4 };
+    for d in 1..=fx_depth {
+        let with_limit = !quick && d <= 3;
+        (0..pow(ft_old_alphabet.len(), d)).into_par_iter().for_each(|k| {
+            let mut base = Vec::new();
+            nth_string(&ft_old_alphabet, d, k, &mut base);
+            for comp in 0..OLD_COMPRESSORS.len() as u8 {
+                run_fixed_capacity_scripts(&ctx, &stats, &fs, &wd, FBuilder::Old(comp, true), &[0], &base, &names);
+                if with_limit {
+                    run_fixed_capacity_scripts(&ctx, &stats, &fs, &wd, FBuilder::Old(comp, false), &[1], &base, &names);
+                }
+            }
+        });
+        (0..pow(ft_new_alphabet.len(), d)).into_par_iter().for_each(|k| {
+            let mut base = Vec::new();
+            nth_string(&ft_new_alphabet, d, k, &mut base);
+            for rev in [true, false] {
+                run_fixed_capacity_scripts(&ctx, &stats, &fs, &wd, FBuilder::New(rev), if with_limit { &[0, 1] } else { &[0] }, &base, &names);
+            }
+        });
+    }
+    let fault_evals = stats.evals() - build_evals_before_faults;
     stats.count_n("gen.long_scripts", long_cases.len() as u64);
     long_cases.par_iter().for_each(|(h, k, t)| run_lru_case(&ctx, &stats, &bs, &wd, &heads[*h], *k, &tails[*t], &names));
 
@@ -3142,6 +3795,14 @@ fn main() {
         hist.insert(name.to_string(), Value::Object(m));
     }
     let g = |x: &AtomicU64| x.load(AO::Relaxed);
+    let per_builder = {
+        let mut m = serde_json::Map::new();
+        for b in (0..4u8).flat_map(|c| [FBuilder::Old(c, false), FBuilder::Old(c, true)]).chain([FBuilder::New(false), FBuilder::New(true)]) {
+            let i = fbuilder_index(b);
+            m.insert(fbuilder_name(b), json!([g(&fs.by_builder[i][0]), g(&fs.by_builder[i][1])]));
+        }
+        Value::Object(m)
+    };
     let cov = json!({
         "evaluations": stats.evals(),
         "distinct_nontrivial": stats.nontrivial.load(AO::Relaxed).min(stats.distinct_count()),
@@ -3172,6 +3833,25 @@ fn main() {
             "pushes_refused_as_Truncated_under_a_limit": g(&bs.truncated_pushes),
             "outputs_read_back_equal_by_other_codec_and_independent_reader": g(&bs.checks_ok),
         },
+        "build_under_faults": {
+            "rule": "Part 2b: one case = (script, builder, capacity). Scripts: (a) established builder: every sequence of 1..depth steps over {push of each item of the menu, rewind() of the current section, back to the previous section} with every assignment of at most max_faults faults from the pass's fault menu to its pushes (fault = a push limit, or the buffer ending r octets after the current length, for that push only), on every compressor (none, Static, Tree, Hash; target Vec<u8>, or a target with a movable end for the buffer faults); (b) every fault-free sequence of 1..fixed_depth steps under a capacity fixed for the whole script (established: buffer of exactly L octets [thorough, to depth 3: also set_push_limit(L)]; new builder with owners as RevNameBuf and as &Name, steps {push of each item, truncate()}: buffer of exactly L octets [thorough, to depth 3: also limit_to(L)]) for EVERY L from 12 to the size at which everything fits. Whether a push is accepted is taken from the builder; the model keeps the accepted items minus those rolled back (rewind, section left backwards, truncate()). Oracle: the independent reader, the established codec and the new codec each read exactly the model's items (names label-wise and ASCII-case-insensitively, RDATA names decompressed, other RDATA by value), the header flags are the expected ones, the message does not exceed the capacity.",
+            "items": FT_ITEMS.iter().map(|o| op_desc(*o, &names)).collect::<Vec<_>>(),
+            "passes(depth, max_faults, fault_menu)": ft_passes.iter().map(|(d, k, e)| json!([d, k, if *e { "push limit = current length + uncompressed size - 1; buffer ends r octets after the current length for EVERY r below the uncompressed size" } else { "push limit = current length; buffer ends 0 / 7 / (uncompressed size - 1) octets after the current length" }])).collect::<Vec<_>>(),
+            "fixed_depth": fx_depth,
+            "cases": g(&fs.cases),
+            "evaluations": fault_evals,
+            "pushes_accepted": g(&fs.accepted),
+            "pushes_refused": g(&fs.refused),
+            "pushes_for_an_earlier_section(skipped / refused as Misplaced)": g(&fs.misplaced),
+            "items_rolled_back": g(&fs.rolled_back_items),
+            "cases_with_items_in_the_output_after_a_refused_push": g(&fs.push_after[0]),
+            "cases_with_items_in_the_output_after_rewind": g(&fs.push_after[1]),
+            "cases_with_items_in_the_output_after_a_section_was_left_backwards": g(&fs.push_after[2]),
+            "cases_with_items_in_the_output_after_truncate()": g(&fs.push_after[3]),
+            "outputs_with_compression_pointers": g(&fs.with_pointers),
+            "outputs_read_equal_by_independent_reader_and_both_codecs": g(&fs.all_equal),
+            "per_builder[cases, cases_with_a_refused_push]": per_builder,
+        },
         "samples": stats.samples(),
         "counters": stats.counters_json(),
     });
@@ -3184,6 +3864,7 @@ fn main() {
             "name comparison in Part 2 is ASCII case-insensitive (compression may reuse a differently-cased earlier occurrence); Part 1 compares case-sensitively",
             "the build is made with overflow checks on: an arithmetic overflow in the subject shows up as a panic",
             "a case that does not finish within 20 s is reported as a hang",
+            "Part 2b: whether a push fits under a push limit / buffer end / capacity is taken from the builder (compression is the builder's choice); only the accepted items are modelled; the target with a movable end is a harness implementation of the public OctetsBuilder/Truncate/Composer traits",
         ],
     );
 }
